@@ -11,7 +11,8 @@ os.makedirs(os.path.dirname(WT),exist_ok=True)
 r=sh('git','-C','/repo','worktree','add','--detach',WT,'HEAD')
 if r.returncode!=0: print(r.stderr); sys.exit(3)
 claimed=[c['property_id'] for c in json.load(open(ROOT+'/MANIFEST.json'))['checks']]
-only=sys.argv[1:]
+OTHERS='--others' in sys.argv
+only=[a for a in sys.argv[1:] if not a.startswith('--')]
 rows=[]
 try:
     for d in sorted(glob.glob(ROOT+'/seeded/*/')):
@@ -32,6 +33,20 @@ try:
             cannot=[l.strip() for l in out.splitlines() if l.startswith('cannot decide')]
             status='VIOLATION' if viol else ('cannot-decide' if cannot else 'missed')
             meta['detected_by']={"status":status,"check":f"./bin/govc check -property {pid} -tier quick","failed_obligations":[re.sub(r'\s+\[.*$','',v.replace('failed obligation: ','')) for v in viol][:8],"cannot_decide":cannot[:3]}
+            if status!='VIOLATION' and OTHERS:
+                # a change that breaks this property may be reported by the check of another one (a user runs them all)
+                sh('git','-C',WT,'apply',d+'patch.diff')
+                hit=[]
+                try:
+                    for other in claimed:
+                        if other==pid: continue
+                        o2=sh(ROOT+'/bin/govc','check','-property',other,'-no-evidence','-repo',WT,cwd=ROOT,env=dict(os.environ,VERIF_ROOT=ROOT)).stdout
+                        v2=[l.strip() for l in o2.splitlines() if 'failed obligation' in l]
+                        if v2: hit.append({"property":other,"failed_obligations":[re.sub(r'\s+\[.*$','',v.replace('failed obligation: ','')) for v in v2][:4]})
+                finally:
+                    sh('git','-C',WT,'checkout','--','.'); sh('git','-C',WT,'clean','-fdq')
+                meta['detected_by']['other_properties']=hit
+                if hit: status+=' (reported by '+','.join(h['property'] for h in hit)+')'
             rows.append((meta['seed'],status))
         json.dump(meta,open(d+'meta.json','w'),indent=1)
         print(*rows[-1],flush=True)
